@@ -1077,7 +1077,10 @@ class PackBasedObjectStore(PackCapableObjectStore, PackedObjectContainer):
         for alternate in self.alternates:
             if sha in alternate:
                 return True
-        return False
+        # A concurrent repack may have moved the object from a loose file
+        # into a new pack after the packs were searched above; look again
+        # (this rescans the pack directory).
+        return self.contains_packed(sha)
 
     def _add_cached_pack(self, base_name: str, pack: Pack) -> None:
         """Add a newly appeared pack to the cache by path."""
@@ -1436,6 +1439,13 @@ class PackBasedObjectStore(PackCapableObjectStore, PackedObjectContainer):
                 return alternate.get_raw(hexsha)
             except KeyError:
                 pass
+        # A concurrent repack may have moved the object from a loose file
+        # into a new pack after the packs were searched above; look again
+        # (this rescans the pack directory).
+        try:
+            return self._lookup_in_packs(lambda p: p.get_raw(sha))
+        except KeyError:
+            pass
         raise KeyError(hexsha)
 
     def iter_unpacked_subset(
